@@ -4,6 +4,7 @@ Property theorems only (model and spec: KinModel/Body.lean; helper lemmas: KinMo
 -/
 import KinModel.Body
 import KinModel.Lemmas.C06
+import KinModel.Lemmas.C06Text
 import KinModel.Gen.BodyDecoders
 namespace KinModel.Body
 
@@ -464,6 +465,9 @@ theorem writeOnly_irrelevant (exro : Bool) : ∀ (s : RS) (v : V), visit exro s.
 
 /-! ## (d) decoders -/
 
+def exInt' : RS := RS.mk (some .integer) false false false 0 none [] [] none none
+
+
 /-- **C06(d), urlencoded.** Outside the classes `FormFieldUnparsable` and `FormNullForMissing` (and for
 well-formed per-property encodings and a schema the decoder supports) the object built by
 `UrlencodedBodyDecoder` is exactly the object the form fields encode under the declared types and
@@ -494,6 +498,83 @@ theorem formNullStored_witness :
     formNullStored fields [] props = true ∧
     (match specFormProps fields [] props with | some o => satReqB false s (.obj o) | none => false) = true ∧
     visit false s (.obj (decodeFormProps fields [] props)) = false := by decide
+
+/-- the object a client means when it gives `val k` for the declared properties (in declaration order) -/
+def objOf (val : Str → Option V) (props : List (Str × RS)) : List (Str × V) :=
+  props.filterMap fun kp => (val kp.1).map fun v => (kp.1, v)
+
+/-- **C06(d), round trip (spec side).** For every flat object of primitives and non-empty primitive arrays
+written under the per-property encodings (exploded, or joined with the style's delimiter when no item text
+contains it), the fields written encode exactly that object: decimal integers, `n.5` numbers, booleans
+and strings parse back to themselves. Any number of properties, any values. -/
+theorem specForm_roundtrip (encs : List (Str × Enc)) (val : Str → Option V) (props : List (Str × RS))
+    (hnd : (keys props).Nodup)
+    (henc : ∀ k p v, (k, p) ∈ props → val k = some v → FormEncodable p (lookup k encs) v) :
+    specFormProps (encodeForm encs val props) encs props = some (objOf val props) := by
+  have gen : ∀ ps : List (Str × RS), (∀ kp ∈ ps, kp ∈ props) →
+      specFormProps (encodeForm encs val props) encs ps = some (objOf val ps) := by
+    intro ps
+    induction ps with
+    | nil => intro _; rfl
+    | cons x r ih =>
+      intro hsub
+      obtain ⟨k, p⟩ := x
+      have hmem : (k, p) ∈ props := hsub (k, p) (by simp)
+      have hl := lookup_encodeForm encs val props k (mem_keys_of_mem k p props hmem) hnd
+      have ihr := ih (fun kp hkp => hsub kp (by simp [hkp]))
+      unfold specFormProps
+      rw [ihr]
+      cases hv : val k with
+      | none =>
+        rw [hv] at hl
+        have : specFormProp (encodeForm encs val props) k p (lookup k encs) = some none := by
+          unfold specFormProp; rw [hl]; rfl
+        simp [this, objOf, hv]
+      | some v =>
+        have he := henc k p v hmem hv
+        obtain ⟨ts, hts⟩ := encodeField_of_encodable p (lookup k encs) v he
+        rw [hv] at hl
+        simp only [Option.bind_some, hts] at hl
+        have := specFormProp_encodeField _ k p (lookup k encs) v ts he hts hl
+        simp [this, objOf, hv]
+  exact gen props (fun _ h => h)
+
+/-- **C06(d), round trip (decoder).** The same for the model of `UrlencodedBodyDecoder`, outside the class
+`FormNullForMissing` (every declared property is given a value, so nothing is stored as null):
+`decodeForm (encodeForm o) = o`. -/
+theorem decodeForm_roundtrip_partial (encs : List (Str × Enc)) (val : Str → Option V) (props : List (Str × RS))
+    (hnd : (keys props).Nodup)
+    (henc : ∀ k p v, (k, p) ∈ props → val k = some v → FormEncodable p (lookup k encs) v)
+    (hwf : encsWF encs props = true) (hpre : formPre props = .ok)
+    (hn : formNullStored (encodeForm encs val props) encs props = false) :
+    decodeFormProps (encodeForm encs val props) encs props = objOf val props := by
+  have hs := specForm_roundtrip encs val props hnd henc
+  have hu : formUnparsable (encodeForm encs val props) encs props = false := by
+    generalize encodeForm encs val props = fields at hs
+    generalize objOf val props = o at hs
+    clear hn hpre hwf henc hnd
+    induction props generalizing o with
+    | nil => rfl
+    | cons x r ih =>
+      obtain ⟨k, p⟩ := x
+      unfold specFormProps at hs
+      simp only [formUnparsable, List.any_cons, Bool.or_eq_false_iff]
+      cases h1 : specFormProp fields k p (lookup k encs) with
+      | none => simp [h1] at hs
+      | some o1 =>
+        cases h2 : specFormProps fields encs r with
+        | none => cases o1 <;> simp [h1, h2] at hs
+        | some l => exact ⟨by simp, ih l h2⟩
+  have := formProps_agree _ encs props hu hn hwf hpre
+  rw [hs] at this
+  exact (Option.some.inj this).symm
+
+example :
+    let val : Str → Option V := fun k => if k = ['a'] then some (.int (-12)) else if k = ['b'] then some (.arr [.half 1, .int 3]) else none
+    let props := [(['a'], exInt'), (['b'], RS.mk (some .array) false false false 0 none [] [] none (some (RS.mk (some .number) false false false 0 none [] [] none none)))]
+    let encs := [(['b'], ({ style := "pipeDelimited".toList, explode := some false } : Enc))]
+    encodeForm encs val props = [(['a'], ["-12".toList]), (['b'], ["1.5|3".toList])] ∧
+    formNullStored (encodeForm encs val props) encs props = false := by decide
 
 /-- multipart: properties without a part are absent from the object (not null) -/
 theorem assemble_absent (vals : List (Str × V)) (props : List (Str × RS)) (k : Str)
